@@ -90,7 +90,7 @@ def gen_cfg(rng, it):
         cfg["matcher"] = "merge" if k == "merge" else "naive"
         cfg["m2o"] = k == "m2o"
         cfg["mmetric"] = rng.choice(["IOU", "IOU", "DSC", "ASSD"])
-        cfg["mthr"] = rng.choice([0.0, 0.25, 0.5, 0.5, 0.75]) if cfg["mmetric"] != "ASSD" else rng.choice([0.5, 1.0, 3.0])
+        cfg["mthr"] = rng.choice([0.0, 0.25, 0.5, 0.5, 0.75, 0.34, 0.55, 0.6, 0.65, 0.9]) if cfg["mmetric"] != "ASSD" else rng.choice([0.5, 1.0, 3.0])
     if it == "semantic":
         cfg["backend"] = rng.choice([None, "cc3d", "scipy"])
     dm = rng.choice([None, None, "IOU", "DSC", "ASSD"])
